@@ -397,25 +397,38 @@ def finish(ctx, level="proof"):
 # functions / module-level statements of src/ecdsa each generator sees).  `finish` is wrapped, not edited.
 def tie_coverage_for(pid, extra_props=()):
     """the part of evidence/tie_coverage.json that concerns property `pid`: every function of the modules its anchors name
-    and every unit whose change makes this property's check re-prove something, each with the generators that see it
-    (style, probes seen / probes made).  Module-level statements are summarised by counts."""
+    and every unit whose change makes THIS check re-prove something, each with the generators that see it (style, probes
+    seen / probes made).  "re-proved by this check" is decided per unit from the Props namespaces this check actually
+    builds (`pid` + EXTRA_PROPS of props/<pid>.py + harness/extra_props.json, as passed in `extra_props`) against the unit's
+    definition-level `props_namespaces` of the audit — module-level statements included.  The audit is a separate run
+    (harness/tiecoverage.py); when a source or generator hash differs from the audited one the block is marked `stale`."""
     path = os.path.join(EVID, "tie_coverage.json")
     if not os.path.exists(path):
         return {"available": False, "how": "run /venv/bin/python harness/tiecoverage.py"}
     doc = json.load(open(path))
     spaces = set([pid] + list(extra_props))
-    stale = []
+    stale_modules, stale_generators = [], []
     for m, h in doc.get("src_hash", {}).items():
         try:
             cur = hashlib.sha1(open(os.path.join(SRC, "ecdsa", m + ".py"), "rb").read()).hexdigest()[:16]
         except OSError:
             cur = None
         if cur != h:
-            stale.append(m)
-    funcs, stmts = [], {"total": 0, "covered": 0, "reproved_by_this_check": 0}
+            stale_modules.append(m)
+    tdir = os.path.join(VERIF, "harness", "translate")
+    current_gens = sorted(f[:-3] for f in os.listdir(tdir) if f.startswith("gen_") and f.endswith(".py"))
+    for g in sorted(set(current_gens) | set(doc.get("generator_hash", {}))):
+        try:
+            cur = hashlib.sha1(open(os.path.join(tdir, g + ".py"), "rb").read()).hexdigest()[:16]
+        except OSError:
+            cur = None
+        if cur != doc.get("generator_hash", {}).get(g):
+            stale_generators.append(g)
+    funcs = []
+    stmts = {"total": 0, "covered": 0, "reproved_by_this_check": 0}
     modules = set()
     for u in doc.get("units", []):
-        mine = pid in u.get("properties", []) or bool(spaces & set(u.get("props_namespaces", [])))
+        mine = bool(spaces & set(u.get("props_namespaces", [])))
         anchored = pid in u.get("anchored_by", [])
         if not (mine or anchored):
             continue
@@ -428,13 +441,17 @@ def tie_coverage_for(pid, extra_props=()):
             stmts["total"] += 1
             stmts["covered"] += 1 if u["covered"] != "none" else 0
             stmts["reproved_by_this_check"] += 1 if mine else 0
-    return {"available": True, "source": "evidence/tie_coverage.json (harness/tiecoverage.py, mutation audit)",
-            "repo_head_audited": doc.get("repo_head"), "stale_modules": stale, "modules": sorted(modules),
+    stale = bool(stale_modules or stale_generators)
+    return {"available": True, "stale": stale, "stale_modules": stale_modules, "stale_generators": stale_generators,
+            "note": ("STALE: the audit below was made for other source / generator files than the ones this check ran on; "
+                     "re-run harness/tiecoverage.py") if stale else "audit matches the current source and generators",
+            "source": "evidence/tie_coverage.json (harness/tiecoverage.py, mutation audit; NOT measured by this run)",
+            "repo_head_audited": doc.get("repo_head"), "audited_at": doc.get("audited_at"),
+            "namespaces_built_by_this_check": sorted(spaces), "modules": sorted(modules),
             "functions": funcs, "functions_total": len(funcs),
             "functions_uncovered": [f["unit"] for f in funcs if f["covered"] == "none" and f["live"] is not False],
             "functions_reproved_by_this_check": sum(1 for f in funcs if f["reproved_by_this_check"]),
-            "module_level_statements": stmts,
-            "recommended_extra_props": doc.get("rest_extra_props", {}).get(pid, {}).get("recommended", [])}
+            "module_level_statements": stmts}
 
 
 _finish_without_tie_coverage = finish
